@@ -69,12 +69,36 @@ def exec_for(I, st):
             except _Break:
                 break
         return
+    if isinstance(it, Obj) and it.kind == "objmap" and I.heap[it.oid].get("keyed_list"):
+        it = KeyIter(I.heap[it.oid]["dom"], None, "rows", it)
     if isinstance(it, KeyIter):
         return foreach_key(I, st, it)
     raise Unsupported("for over %r at %s:%d" % (it, I.frame().relpath, st.lineno))
 
 
+def keyed_list(I, rowcls, fields, base="lst", flkinds=None):
+    """A python list to which a loop over a key-indexed family appends at most one record per key, modelled as
+    a family of rows indexed by that key (the record's `contract` field). Iteration order is abstracted (A7)."""
+    cols = {}
+    for f in fields:
+        if f == "contract":
+            cols[f] = lambda k: KeyV(k)
+        else:
+            fn = I.func("%s.%s" % (base, f), K, RealS)
+            cols[f] = (lambda fn: lambda k: Fl(fn(k)))(fn)
+    em = I.func("%s?in" % base, K, BoolS)
+    return I.new_obj("objmap", "list", {"cols": cols, "dom": lambda k: em(k), "rowcls": rowcls, "total": False,
+                                         "keyed_list": True})
+
+
+def rows_empty(heap, lst):
+    p = heap[lst.oid]
+    return "items" in p and len(p["items"]) == 0
+
+
 def bind_target(I, st_target, it, k):
+    if it.kind == "rows":
+        return I.assign(st_target, RowRef(it.src, k, I.heap[it.src.oid]["rowcls"]))
     if it.kind == "keys":
         I.assign(st_target, KeyV(k))
     elif it.kind == "items":
@@ -165,24 +189,31 @@ def dict_comprehension(I, e):
         cond = it.dom(kc)
         # conditions are evaluated under the assumption that the key is in the domain
         I.solver.push()
-        I.solver.add(cond)
+        I.asolver.push()
+        sites0, cache0 = set(I.abs.sites), set(I.abs.cache)
+        I._assert(cond)
         for f in I.pw:
-            I.solver.add(f(kc))
+            I._assert(f(kc))
         try:
             for cnd in g.ifs:
                 c = I.truth(I.ev(cnd))
                 c = z3.BoolVal(c) if isinstance(c, bool) else c
                 cond = z3.And(cond, c)
-                I.solver.add(c)
+                I._assert(c)
             kv = I.ev(e.key)
             vv = I.ev(e.value)
             if not isinstance(kv, KeyV):
                 raise Unsupported("comprehension key %r" % (kv,))
             if not kv.t.eq(kc):
-                if I.solver.check(kv.t != kc) != z3.unsat:
+                if I.sat_possible(kv.t != kc):
                     raise Unsupported("comprehension key is not the iteration key (no injectivity argument)")
         finally:
             I.solver.pop()
+            I.asolver.pop()
+            for k_ in [x for x in I.abs.sites if x not in sites0]:
+                del I.abs.sites[k_]       # their axioms were popped with the scope
+            for k_ in [x for x in I.abs.cache if x not in cache0]:
+                del I.abs.cache[k_]
     finally:
         I.no_fork -= 1
         fr.env.clear()
